@@ -10,9 +10,6 @@
    model   : (schema (typedef...) ((key condition)...)) *)
 From Verif Require Import Base.Str Base.Sx Base.Outcome Model.Ast Model.Token Model.Lexer Model.Parser
   Model.Listener Model.Printer Model.Utils Model.Transform Spec.Expressible Spec.Normalize Spec.DocDomain.
-(* the only definitions taken from a proof file: the computable texts and domain test of the every-layout theorem (op 209) *)
-From Verif Require Proofs.DocLayout.
-Import Proofs.DocLayout.
 
 Fixpoint sx_userset (u : userset) : sx :=
   match u with
@@ -225,14 +222,6 @@ Definition dispatch_transform (op : N) (args : list sx) : option sx :=
   | 207, [m] => option_map sx_spec_model (un_model m)
   (* op 208: the document-level round-trip theorem evaluated on a model: (applies? , the model it says comes back) *)
   | 208, [m] => option_map (fun m => SL [SA (if model_okb m then 1 else 0); sx_model (canonical m)]) (un_model m)
-  (* op 209: the every-layout theorem evaluated on a model: (applies?, the document in the chosen layout, the model it
-     says the document denotes) *)
-  | 209, [w; n; m] =>
-      match un_str w, un_str n, un_model m with
-      | Some w, Some n, Some m =>
-          Some (SL [SA (if layout_okb w n m then 1 else 0); sx_str (layout_text w n m ++ [10]); sx_model (canonical m)])
-      | _, _, _ => None
-      end
   (* op 210: utils.IsRelationAssignable for every relation of a model *)
   | 210, [m] =>
       option_map (fun m => SL (flat_map (fun td => map (fun p => SL [sx_str (td_name td); sx_str (fst p); SA (if is_assignable (snd p) then 1 else 0)])
